@@ -175,6 +175,33 @@ def gen(seed, tier):
                     out.append(f"det {arr([n, n], flat(m))}")
                 if kind in ("random", "dominant") and n <= 5:
                     out.append(f"qr {arr([n, n], flat(m))}")
+    # matrices with structural zeros (invertible: unit-dominant diagonal): zero sub-diagonals with entries further
+    # below, lower / upper triangular, banded, permuted-sparse — for solve, det and qr
+    for n in range(2, 7):
+        for pattern in ("zero_subdiag", "lower", "upper", "band2", "sparse", "zero_superdiag", "arrow"):
+            for _ in range(2 if tier == "quick" else 20):
+                m = [[0] * n for _ in range(n)]
+                for i in range(n):
+                    for j in range(n):
+                        v = rng.randint(1, 9) * rng.choice([-1, 1])
+                        keep = {"zero_subdiag": i != j + 1, "lower": j <= i, "upper": j >= i, "band2": abs(i - j) != 1,
+                                "sparse": rng.random() < 0.4, "zero_superdiag": j != i + 1,
+                                "arrow": i == 0 or j == 0 or i == j}[pattern]
+                        m[i][j] = v if keep else 0
+                    m[i][i] = rng.randint(20, 40) * rng.choice([-1, 1])
+                b = arr([n], [rng.randint(-9, 9) for _ in range(n)])
+                out.append(f"solve {arr([n, n], flat(m))} {b}")
+                if n <= 5:
+                    out.append(f"det {arr([n, n], flat(m))}")
+                    out.append(f"qr {arr([n, n], flat(m))}")
+        if n <= 4:
+            ms = []
+            for _ in range(3):
+                m = [[(rng.randint(1, 9) if i != j + 1 else 0) for j in range(n)] for i in range(n)]
+                for i in range(n):
+                    m[i][i] = rng.randint(20, 40)
+                ms.append(m)
+            out.append(f"qr {arr([3, n, n], flat(ms[0]) + flat(ms[1]) + flat(ms[2]))}")
     # entry checks: rank of a, squareness, extents below 2, row count of the right-hand side
     for a_, b_ in [("a1:0", "a1:0"), ("a3:1,2,3", "a3:1,2,3"), ("a1x1:5", "a1:5"), ("a2x3:1,2,3,4,5,6", "a2:1,2"),
                    ("a3x2:1,2,3,4,5,6", "a3:1,2,3"), ("a2x2:1,2,3,5", "a3:1,2,3"), ("a2x2:1,2,3,5", "a1:1"),
